@@ -29,6 +29,8 @@ type c11Gen struct {
 	w      *c11World
 	accts  []common.Address
 	native []string // native denominations minted in this history
+	force     *common.Address // when set, the next steps address this contract's pair
+	forceBase string          // … and ICS-20 packets carry this base denomination
 }
 
 func (g *c11Gen) do(op string) string {
@@ -288,8 +290,14 @@ func (g *c11Gen) stepOp() {
 	rng := g.r.Rng
 	w := g.w
 	c := w.contracts[rng.Intn(len(w.contracts))]
+	if g.force != nil {
+		c = *g.force
+	} else if rng.Intn(100) < 6 {
+		g.restartScenario()
+		return
+	}
 	p := w.pairOf(w.ctx, c)
-	if rng.Intn(3) == 0 { // disabled things come back soon, so that histories do not die
+	if g.force == nil && rng.Intn(3) == 0 { // disabled things come back soon, so that histories do not die
 		if !w.app.AggregateKeeper.GetParams(w.ctx).EnableAggregate {
 			g.doDump("params 1")
 		}
@@ -298,7 +306,7 @@ func (g *c11Gen) stepOp() {
 			p = w.pairOf(w.ctx, c)
 		}
 	}
-	if rng.Intn(100) < 13 {
+	if rng.Intn(100) < 13 && g.force == nil {
 		g.icsOp()
 		return
 	}
@@ -439,6 +447,9 @@ func (g *c11Gen) icsOp() {
 	rng := g.r.Rng
 	w := g.w
 	base := []string{"uatom", "uatom", "uosmo", "uosmo", "ujuno"}[rng.Intn(5)]
+	if g.forceBase != "" {
+		base = g.forceBase
+	}
 	v := c11Voucher(base)
 	recv := c11Hex(g.anyAcct())
 	switch x := rng.Intn(20); {
@@ -529,5 +540,76 @@ func (g *c11Gen) rawBech(a common.Address) string {
 		return chain + "1notbech32"
 	default:
 		return good + " "
+	}
+}
+
+// restarts (genesis export / import of the module) at any point; mostly right after governance switched a pair's relay
+// (and sometimes the whole module) off, followed by conversions in both directions and ICS-20 packets for that pair
+func (g *c11Gen) restartScenario() {
+	rng := g.r.Rng
+	w := g.w
+	if rng.Intn(5) < 2 {
+		g.doDump("restart")
+		return
+	}
+	var regs []common.Address
+	for _, c := range w.contracts {
+		if w.pairOf(w.ctx, c).found {
+			regs = append(regs, c)
+		}
+	}
+	if len(regs) == 0 {
+		g.doDump("restart")
+		return
+	}
+	c := regs[rng.Intn(len(regs))]
+	p := w.pairOf(w.ctx, c)
+	tok := "0x" + c11Hex(c)
+	if rng.Intn(2) == 0 {
+		tok = p.denoms[rng.Intn(len(p.denoms))]
+	}
+	if p.enabled {
+		g.doDump("toggle " + hxs(tok))
+	}
+	moduleOff := rng.Intn(4) == 0
+	if moduleOff {
+		g.doDump("params 0")
+	}
+	g.doDump("restart")
+	if rng.Intn(4) == 0 {
+		g.doDump("restart")
+	}
+	if moduleOff && rng.Intn(2) == 0 {
+		g.doDump("params 1")
+	}
+	g.force = &c
+	for _, b := range []string{"uatom", "uosmo", "ujuno"} {
+		for _, d := range p.denoms {
+			if d == c11Voucher(b) {
+				g.forceBase = b
+			}
+		}
+	}
+	for k := 2 + rng.Intn(3); k > 0; k-- {
+		g.stepOp()
+	}
+	if g.forceBase != "" {
+		g.icsOp()
+		if rng.Intn(2) == 0 {
+			g.icsOp()
+		}
+	}
+	g.force, g.forceBase = nil, ""
+	if moduleOff {
+		g.doDump("params 1")
+	}
+	if rng.Intn(10) < 7 && w.pairOf(w.ctx, c).found && !w.pairOf(w.ctx, c).enabled {
+		g.doDump("toggle " + hxs("0x"+c11Hex(c)))
+		if rng.Intn(3) == 0 {
+			g.doDump("restart")
+			g.force = &c
+			g.stepOp()
+			g.force = nil
+		}
 	}
 }
